@@ -1271,6 +1271,8 @@ def finding_key(t, matched, evname, why):
     if evname in ("Build21", "Export21", "Parse21"):
         b = evs[0]
         kc = key_class(b["keys"]) + ("+isk" if b["isk"] else "")
+        if b["isk"] and b["iskKey"]["cls"] != b["keys"][0]["cls"]:          # the ISK on another curve than the root keys
+            kc += "-" + b["iskKey"]["cls"]
         if evname == "Export21":
             last_exp = max([i for i, x in enumerate(evs[:matched]) if x["a"] == "Export21"], default=-1)
             changed = sorted({x["a"] for x in evs[last_exp + 1:matched] if x["a"] in ("SetUserData", "SetConstraints")})
@@ -1651,7 +1653,7 @@ def run(tier):
         "AHAB RSA records: exponent field of 4 bytes (no golden artefact with RSA SRKs is available offline; ECC layouts are anchored)",
         "srk_table_ahab_v2 with RSA keys is refused by SPSDK's own verifier and the debug-credential path of the two v2 families builds a v1 table: not asserted",
         "debug credentials with RSA-3072 root keys are outside the DAT protocol versions; one password per call (no mix of encrypted and plain private keys)",
-        "certificate block v1 with a single self-signed certificate (chains are C02's); ISK key on the curve of the root keys; re-signing a PARSED block is undefined",
+        "certificate block v1 with a single self-signed certificate (chains are C02's); ISK key on P-256 / P-384 whatever the curve of the root keys (every pair, built and parsed); re-signing a PARSED block is undefined",
         "cert_block_x (4 families) is not named by the property",
         "construction histories: the value of an object is asserted whenever its contents are a key list of the property (1..4 keys without a hole; four records "
         "for AHAB); a v1 table with a hole (the configuration front end refuses holes) and an AHAB table with fewer than four records are not asserted - so an "
